@@ -11,7 +11,8 @@
 //!   decrypt <s> <pw> <aead>    decrypt_private_key; aead = na | fail | pt:<b> (ring's PBKDF2 + ChaCha20-Poly1305 open on the framing)
 //!   encrypt <key> <pw>         encrypt_private_key (random salt/nonce): prints the length of the hex output; oracle decrypts it
 //!   hdr <b>                    RecordHeader::from_record
-//!   recdeser <b> <tp>          try_deserialize_record::<Vec<u8>>; tp = na | err | ok:<b> (rmp_serde on the bytes after the prefix)
+//!   recdeser <key> <b> <tp>    try_deserialize_record::<Vec<u8>> on Record { key, value: b } (the error path logs the key);
+//!                              tp = na | err | ok:<b> (rmp_serde on the bytes after the prefix)
 //!   craft <0|1> <s> <tp>       craft_valid_multiaddr_from_str; tp = err | comma list of protocol tags of the parsed multiaddr
 //!   leastfaulty s:f …          BootstrapAddresses::get_least_faulty (reaches failure_rate)
 //!   reliable s f               BootstrapAddr::is_reliable
@@ -239,8 +240,11 @@ fn kind_name(k: RecordKind) -> &'static str {
     }
 }
 
+fn record_with_key(key: &[u8], value: Vec<u8>) -> Record {
+    Record { key: RecordKey::new(&key), value, publisher: None, expires: None }
+}
 fn record(value: Vec<u8>) -> Record {
-    Record { key: RecordKey::new(&[1u8, 2, 3]), value, publisher: None, expires: None }
+    record_with_key(&[1u8, 2, 3], value)
 }
 
 fn baddr(s: u32, f: u32, i: usize) -> BootstrapAddr {
@@ -309,8 +313,8 @@ fn exec(line: &str, tmp: &std::path::Path) -> (String, String) {
                     Err(_) => "err".into(),
                 }
             }
-            ["recdeser", b, ..] => {
-                let Some(v) = unhex(b) else { return "bad-op".into() };
+            ["recdeser", key, b, ..] => {
+                let (Some(key), Some(v)) = (unhex(key), unhex(b)) else { return "bad-op".into() };
                 let tp = if v.len() > 2 {
                     match rmp_serde::from_slice::<Vec<u8>>(&v[2..]) {
                         Ok(x) => format!("ok:{}", hex(&x)),
@@ -319,8 +323,8 @@ fn exec(line: &str, tmp: &std::path::Path) -> (String, String) {
                 } else {
                     "na".into()
                 };
-                op = format!("recdeser {b} {tp}");
-                match try_deserialize_record::<Vec<u8>>(&record(v)) {
+                op = format!("recdeser {} {b} {tp}", ws[1]);
+                match try_deserialize_record::<Vec<u8>>(&record_with_key(&key, v)) {
                     Ok(x) => format!("ok {}", hex(&x)),
                     Err(_) => "err".into(),
                 }
@@ -572,6 +576,14 @@ fn cache_abs(rng: &mut Rng) -> String {
     peers.join("|")
 }
 
+/// record keys of length 0, 1, 2, 3, 31, 32, 33 (some not UTF-8)
+const RECORD_KEYS: &[&str] = &[
+    "-", "00", "ff", "41", "0000", "fffe", "c328", "010203", "ffffff", "e282ac",
+    "00000000000000000000000000000000000000000000000000000000000000",
+    "ffffffffffffffffffffffffffffffffffffffffffffffffffffffffffffffff",
+    "8182838485868788898a8b8c8d8e8f909192939495969798999a9b9c9d9e9fa0a1",
+];
+
 fn corpus(v: &mut Vec<String>, rng: &mut Rng) {
     // past minimal failures first
     v.push("reghex - na".into()); // RegisterAddress::from_hex("") panicked before the fix
@@ -592,7 +604,14 @@ fn corpus(v: &mut Vec<String>, rng: &mut Rng) {
     v.push("hdr -".into());
     v.push("hdr 91".into());
     v.push("hdr 9101".into());
-    v.push("recdeser 9101 na".into());
+    v.push("recdeser 010203 9101 na".into());
+    // the error path of try_deserialize_record logs the record key: keys of every short length (incl. empty,
+    // non-UTF-8) with a valid header followed by an undecodable / truncated / valid body
+    for key in RECORD_KEYS {
+        for body in ["9101c1", "9101c4050102", "9101c402aabb", "9101", "9101ff"] {
+            v.push(format!("recdeser {key} {body} x"));
+        }
+    }
     // a valid ciphertext of a plaintext that is not UTF-8 (expect() on from_utf8 panicked before the fix)
     let salt = [7u8; SALT];
     let nonce = [9u8; NONCE];
@@ -620,7 +639,7 @@ fn generate(n: u64, rng: &mut Rng) -> Vec<String> {
             if len > 0 { b[0] = first; }
             if len > 1 { b[1] = *rng.pick(&[0u8, 1, 7, 8, 0xcc, 0xcd, 0xd0, 0x7f, 0xff]); }
             v.push(format!("hdr {}", hex(&b)));
-            v.push(format!("recdeser {} x", hex(&b)));
+            v.push(format!("recdeser {} {} x", rng.pick(RECORD_KEYS), hex(&b)));
         }
     }
     if n >= 100_000 {
@@ -734,7 +753,13 @@ fn generate(n: u64, rng: &mut Rng) -> Vec<String> {
                         b.extend_from_slice(&payload);
                         if rng.chance(1, 4) { b.pop(); }
                     }
-                    v.push(format!("recdeser {} x", hex(&b)));
+                    let key = if rng.chance(1, 2) {
+                        rng.pick(RECORD_KEYS).to_string()
+                    } else {
+                        let kl = *rng.pick(&[0usize, 1, 2, 3, 4, 31, 32, 33, 64]);
+                        hex(&rng.bytes(kl))
+                    };
+                    v.push(format!("recdeser {key} {} x", hex(&b)));
                 }
             }
             11 | 12 | 13 => {
@@ -775,10 +800,20 @@ fn generate(n: u64, rng: &mut Rng) -> Vec<String> {
     v
 }
 
+/// Install a TRACE-level subscriber that really formats every event (into a sink), so that the
+/// `Display`/`Debug` impls reached from the parsers' log statements are executed under `catch_unwind`.
+fn install_formatting_subscriber() {
+    let _ = tracing_subscriber::fmt()
+        .with_max_level(tracing::Level::TRACE)
+        .with_writer(std::io::sink)
+        .try_init();
+}
+
 fn main() {
     let args = &common::parse_args();
     let mut out = Out::new(&args.out);
     std::panic::set_hook(Box::new(|_| {}));
+    install_formatting_subscriber();
     let tmp = tempfile::tempdir().expect("tempdir");
     let lines: Vec<String> = if let Some(p) = &args.replay {
         common::read_lines(p)
